@@ -65,7 +65,7 @@ Definition code_shape_ok : bool :=
   strs_eqb gen_error_levels [s_WARNING; s_ERROR]
   && pairs_eqb gen_default_levels [(s_GeneratorError, s_ERROR); (s_ParseError, s_WARNING)]
   && gen_exit_rule && gen_generate_shape && gen_get_errors_shape && gen_loader_catches && gen_validation_caught
-  && forallb snd gen_retry_loops && Nat.eqb (length gen_retry_loops) 3 && gen_body_ref_guard && gen_kind_guards && gen_detail_none_safe.
+  && forallb snd gen_retry_loops && Nat.eqb (length gen_retry_loops) 3 && gen_body_ref_guard && gen_kind_guards && gen_detail_none_safe && gen_ctype_dispatch.
 
 (* ------------------------------------------------------------------ 2. generate *)
 Inductive outcome (A : Type) := Crash | Ret (a : A).
